@@ -12,6 +12,8 @@
 //!   T4  draws in shuffled orders through one instance and one dirty scratch buffer vs one fresh
 //!       instance per draw;
 //!   T5  16 threads drawing through one shared instance / one shared OutlineGlyphCollection;
+//!   T7  one instance walked through chains of configurations of ONE font (all locations/sizes/targets, all four
+//!       engine choices) WITH DRAWS after every step, and differently reconfigured clones drawn interleaved, vs fresh;
 //!   T6  cold start: 16 threads released from a Barrier against a brand-new instance (or clones of it), several
 //!       rounds x all fonts x {Auto, AutoFallback} + the reuse pool, vs a single-threaded reference;
 //!   WF  every successful stream is (MoveTo (LineTo|QuadTo|CurveTo)* Close)* with finite coordinates.
@@ -30,7 +32,7 @@ use serde_json::json;
 use skrifa::instance::{LocationRef, Size};
 use skrifa::outline::pen::PathStyle;
 use skrifa::outline::{
-    DrawError, DrawSettings, Engine, Hinting, HintingInstance, HintingOptions, OutlineGlyph,
+    DrawError, DrawSettings, Engine, GlyphStyles, Hinting, HintingInstance, HintingOptions, OutlineGlyph,
     OutlineGlyphCollection, OutlinePen, SmoothMode, Target,
 };
 use skrifa::MetadataProvider;
@@ -176,6 +178,8 @@ struct FontInfo {
     is_glyf: bool,
     axes: usize,
     gids: Vec<u32>,
+    /// precomputed autohinter glyph styles (per font), for Engine::Auto(Some(..))
+    styles: GlyphStyles,
 }
 
 /// Two synthetic hinted fonts with the same maxp limits and the same fpgm layout, built to make stale
@@ -272,6 +276,11 @@ fn fonts(rng: &mut Rng, thorough: bool) -> Vec<FontInfo> {
         ("avar2checker", d::AVAR2_CHECKER),
         ("noto_serif_display_cff", d::NOTO_SERIF_DISPLAY_TRIMMED),
         ("cantarell_vf_cff2", d::CANTARELL_VF_TRIMMED),
+        ("notosansjp_vf_cff2", d::ift::CFF2_FONT),
+        ("notosansjp_cff", d::ift::CFF_FONT),
+        ("hvar_truncated_map", d::HVAR_WITH_TRUNCATED_ADVANCE_INDEX_MAP),
+        ("varc_6868", d::varc::CJK_6868),
+        ("varc_conditionals", d::varc::CONDITIONALS),
     ];
     let mut out = vec![];
     for (name, data) in list {
@@ -292,6 +301,7 @@ fn fonts(rng: &mut Rng, thorough: bool) -> Vec<FontInfo> {
             name,
             axes: font.axes().len(),
             is_glyf: fmt == skrifa::outline::OutlineGlyphFormat::Glyf,
+            styles: GlyphStyles::new(&outlines),
             font,
             outlines,
             gids,
@@ -412,7 +422,7 @@ struct Cfg {
     font: usize,
     size: Option<f32>,
     coords: Vec<i16>,
-    engine: u8, // 0 interpreter, 1 auto, 2 auto-fallback
+    engine: u8, // 0 interpreter, 1 auto, 2 auto-fallback, 3 auto with the font's precomputed GlyphStyles
     target: Target,
 }
 
@@ -420,11 +430,12 @@ impl Cfg {
     fn key(&self, fonts: &[FontInfo]) -> String {
         format!("{}|{:?}|{:?}|e{}|{:?}", fonts[self.font].name, self.size, self.coords, self.engine, self.target)
     }
-    fn options(&self) -> HintingOptions {
+    fn options(&self, fonts: &[FontInfo]) -> HintingOptions {
         HintingOptions {
             engine: match self.engine {
                 0 => Engine::Interpreter,
                 1 => Engine::Auto(None),
+                3 => Engine::Auto(Some(fonts[self.font].styles.clone())),
                 _ => Engine::AutoFallback,
             },
             target: self.target,
@@ -438,7 +449,7 @@ impl Cfg {
 fn new_instance(fonts: &[FontInfo], c: &Cfg) -> Result<HintingInstance, String> {
     let co = coords_of(&c.coords);
     let f = &fonts[c.font];
-    match catch(std::panic::AssertUnwindSafe(|| HintingInstance::new(&f.outlines, c.size(), LocationRef::new(&co), c.options()))) {
+    match catch(std::panic::AssertUnwindSafe(|| HintingInstance::new(&f.outlines, c.size(), LocationRef::new(&co), c.options(fonts)))) {
         Err(p) => Err(format!("PANIC: {p}")),
         Ok(Err(e)) => Err(format!("{e:?}")),
         Ok(Ok(i)) => Ok(i),
@@ -448,7 +459,7 @@ fn new_instance(fonts: &[FontInfo], c: &Cfg) -> Result<HintingInstance, String> 
 fn reconfigure(fonts: &[FontInfo], inst: &mut HintingInstance, c: &Cfg) -> Result<(), String> {
     let co = coords_of(&c.coords);
     let f = &fonts[c.font];
-    match catch(std::panic::AssertUnwindSafe(|| inst.reconfigure(&f.outlines, c.size(), LocationRef::new(&co), c.options()))) {
+    match catch(std::panic::AssertUnwindSafe(|| inst.reconfigure(&f.outlines, c.size(), LocationRef::new(&co), c.options(fonts)))) {
         Err(p) => Err(format!("PANIC: {p}")),
         Ok(Err(e)) => Err(format!("{e:?}")),
         Ok(Ok(())) => Ok(()),
@@ -1099,6 +1110,128 @@ fn main() {
             }
         }
         st.v.insert("t6_configs".into(), cfgs.len().into());
+    }
+    // ---------------- T7: reuse WITH DRAWS BETWEEN reconfigures, same font, every engine. State that is filled
+    // lazily by draws (the autohinter's per-style metrics cache, valid for one (font, location) only) exists only
+    // after first use, so an instance is walked through a chain of configurations of ONE font (locations: none,
+    // zero, every corner, random; sizes; targets), drawing the whole glyph sample after every step and comparing
+    // with a fresh instance of that configuration. Clones share such state through an Arc: a clone is reconfigured
+    // to another configuration and both are drawn interleaved, then the original is reconfigured as well.
+    {
+        let sizes7 = [Some(16.0f32), Some(11.0), None, Some(24.0)];
+        let mut n_cfg = 0usize;
+        for (fi, f) in fonts.iter().enumerate() {
+            if f.gids.is_empty() {
+                continue;
+            }
+            let mut locs: Vec<Vec<i16>> = vec![vec![]];
+            if f.axes > 0 {
+                locs.push(vec![16384; f.axes]);
+                locs.push(vec![-16384; f.axes]);
+                locs.push(vec![0; f.axes]);
+                locs.push((0..f.axes).map(|i| if i % 2 == 0 { 8192 } else { -8192 }).collect());
+                locs.push(rand_coords(&mut rng, f.axes));
+                if thorough {
+                    locs.push(rand_coords(&mut rng, f.axes));
+                    locs.push((0..f.axes).map(|i| if i == 0 { 16384 } else { 0 }).collect());
+                }
+            }
+            for engine in [0u8, 1, 2, 3] {
+                // the chain: every location, then the first location again with another size/target
+                let mut chain: Vec<Cfg> = locs
+                    .iter()
+                    .enumerate()
+                    .map(|(k, l)| Cfg { font: fi, size: sizes7[if f.axes > 0 { 0 } else { k % 4 }], coords: l.clone(), engine, target: tgts[0] })
+                    .collect();
+                chain.push(Cfg { font: fi, size: sizes7[1], coords: locs[0].clone(), engine, target: tgts[2] });
+                chain.push(Cfg { font: fi, size: sizes7[0], coords: locs[locs.len() - 1].clone(), engine, target: tgts[1] });
+                n_cfg += chain.len();
+                let fresh: Vec<Result<Vec<Outcome>, String>> = chain.iter().map(|c| new_instance(&fonts, c).map(|i| draw_sample(f, &i, &f.gids))).collect();
+                let mut compare = |st: &mut Stats, what: &str, cur: usize, hist: &str, got: &[Outcome]| {
+                    if let Ok(exp) = &fresh[cur] {
+                        st.evaluations += got.len() as u64;
+                        st.add("t7_draws_compared", got.len() as u64);
+                        if let Some(j) = got.iter().zip(exp.iter()).position(|(a, b)| a != b) {
+                            st.oracle_failure(json!({"key": format!("{what}|{}|after {hist}|g{}", chain[cur].key(&fonts), f.gids[j]), "what": "instance reconfigured after draws (or sharing state with a differently configured clone) draws differently from a fresh instance", "diff": first_diff(&exp[j], &got[j])}));
+                        }
+                    }
+                };
+                // (a) walks in two orders
+                for walk in 0..2 {
+                    let mut order: Vec<usize> = (0..chain.len()).collect();
+                    if walk == 1 {
+                        order.reverse();
+                        let k = order.len() / 2;
+                        order.swap(0, k);
+                    }
+                    let mut inst: Option<HintingInstance> = None;
+                    let mut prev = String::from("new");
+                    for &ci in &order {
+                        let c = &chain[ci];
+                        let r = match inst.as_mut() {
+                            None => new_instance(&fonts, c).map(|i| {
+                                inst = Some(i);
+                            }),
+                            Some(i) => reconfigure(&fonts, i, c),
+                        };
+                        st.count("t7_walk_steps");
+                        if r.is_ok() != fresh[ci].is_ok() {
+                            st.oracle_failure(json!({"key": format!("reuse-drawn|{}|after {prev}|success", c.key(&fonts)), "what": "reconfigure and new disagree on success", "reused": format!("{r:?}")}));
+                        }
+                        if let (Ok(()), Some(i)) = (&r, inst.as_ref()) {
+                            let got = draw_sample(f, i, &f.gids);
+                            compare(&mut st, "reuse-drawn", ci, &prev, &got);
+                            // a second pass over the sample must agree as well (cache now warm)
+                            let again = draw_sample(f, i, &f.gids);
+                            compare(&mut st, "reuse-drawn-warm", ci, &prev, &again);
+                        }
+                        prev = c.key(&fonts);
+                    }
+                }
+                // (b) clones configured differently, drawn interleaved
+                let n = chain.len();
+                for a in 0..n.min(if thorough { n } else { 3 }) {
+                    let b = (a + 1 + (a % 2)) % n;
+                    let c3 = (a + 2) % n;
+                    if fresh[a].is_err() || fresh[b].is_err() || a == b {
+                        continue;
+                    }
+                    let Ok(ia) = new_instance(&fonts, &chain[a]) else { continue };
+                    let mut ia = ia;
+                    // warm part of the original, clone, retarget the clone
+                    let half = f.gids.len() / 2;
+                    let _ = draw_sample(f, &ia, &f.gids[..half]);
+                    let mut ib = ia.clone();
+                    if reconfigure(&fonts, &mut ib, &chain[b]).is_err() {
+                        continue;
+                    }
+                    st.count("t7_clone_pairs");
+                    let mut ga = vec![];
+                    let mut gb = vec![];
+                    for (k, g) in f.gids.iter().enumerate() {
+                        let og = f.outlines.get(GlyphId::new(*g)).unwrap();
+                        if k % 2 == 0 {
+                            gb.push(draw_hinted(&og, &ib, false, None));
+                            ga.push(draw_hinted(&og, &ia, false, None));
+                        } else {
+                            ga.push(draw_hinted(&og, &ia, false, None));
+                            gb.push(draw_hinted(&og, &ib, false, None));
+                        }
+                    }
+                    let hist = format!("clone of {}", chain[a].key(&fonts));
+                    compare(&mut st, "clone-original", a, "cloned", &ga);
+                    compare(&mut st, "clone-retargeted", b, &hist, &gb);
+                    // now move the original too; the clone must not notice
+                    if fresh[c3].is_ok() && reconfigure(&fonts, &mut ia, &chain[c3]).is_ok() {
+                        let ga2 = draw_sample(f, &ia, &f.gids);
+                        let gb2 = draw_sample(f, &ib, &f.gids);
+                        compare(&mut st, "clone-original-moved", c3, &chain[a].key(&fonts), &ga2);
+                        compare(&mut st, "clone-after-original-moved", b, &hist, &gb2);
+                    }
+                }
+            }
+        }
+        st.v.insert("t7_configs".into(), n_cfg.into());
     }
     // T5b: unhinted, shared OutlineGlyphCollection
     for f in fonts.iter() {
